@@ -223,18 +223,19 @@ PROPS['C05'] = {
 for _u in PROPS['C05']['units']:
     PROPS['C07']['units'].append(_u)
 PROPS['C04'] = {
-    'units': ['opt_ts', 'opt_kotlin', 'opt_scala', 'opt_go'],
+    'units': ['opt_ts', 'opt_kotlin', 'opt_swift', 'opt_scala', 'opt_go', 'opt_python'],
     'title': 'a generated member is optional iff the Rust field is Option<T> or has the bare serde(default) (member-writer kernel)',
-    'technique': 'Verus postconditions on the member writers TypeScript::write_field, Kotlin::write_element, Scala::write_element and Go::write_field '
-                 '(extracted verbatim) over a ghost text sink: every write! / writeln! / format! site is verified through a contract generated from its '
+    'technique': 'Verus postconditions on the member writers TypeScript::write_field, Kotlin::write_element, Scala::write_element, Go::write_field, '
+                 'Python::write_field and the stored-property statements of Swift::write_struct (lifted, T11), extracted verbatim, over a ghost text sink: every write! / writeln! / format! site is verified through a contract generated from its '
                  'literal, the optional-marker conditions stay verbatim in the verified text',
     'level_text': 'For every field (any type, any attributes as recorded in the IR, any type override, any generic parameters, every configuration): '
                   'the text the writer appends contains the member in the target\'s notation - name, optional marker, type text - where the marker is '
                   'present exactly when the Rust type is Option<T> or has_default is set (TypeScript `?`, plus `| null` exactly for Option<Option<T>>; '
-                  'Kotlin ` = null` / `? = null`; Scala ` = None`; Go `*` + `,omitempty` in the json tag), and the type text is the override or a '
+                  'Kotlin ` = null` / `? = null`; Swift `?`; Scala ` = None`; Go `*` + `,omitempty` in the json tag; Python `Optional[..]` + `default=None` in '
+                  'Field(..)), and the type text is the override or a '
                   'translation of the Rust type in the sense of C05 - the marker never changes it.',
-    'level_note': 'Kernel: four of the six back ends\' struct-member writers. Swift (member lines inside write_struct) and Python (write_field), '
-                  'newtype-variant payloads, aliases, and that has_default is set exactly for the bare serde(default) (syn) are NOT proved: bounded '
+    'level_note': 'Kernel: the struct-member writers of all six back ends (Swift: the stored property; its initialiser parameters repeat the expression and are '
+                  'not under contract; Python members with a custom (de)serialiser wrapper are not decided). Newtype-variant payloads, aliases, and that has_default is set exactly for the bare serde(default) (syn) are NOT proved: bounded '
                   'stand-in opt-search only. format_type is used through the contract proved in the fmt units. Known finding carved out: Scala writes a '
                   'non-Option member with serde(default) as `T = _` (pinned by a snapshot).',
     'design_ref': 'DESIGN.md section 10.10',
